@@ -32,7 +32,7 @@ import (
 func init() {
 	mon.RegisterCfg("C07", mon.Config{
 		Rule: "mutated: generated GSUB/GPOS/GDEF tables are encoded, mutated at the byte level (0-4 mutations), re-read with gtab.Read/gdef.Read and applied to 4 sequences of length 0..200 over the full glyph id range (biased to glyphs the tables mention); " +
-			"hostile: 16 named hostile shapes x 6 contextual formats built as structures, encoded, re-read (the shape must survive the round trip) and applied; the structure itself is applied as well; " +
+			"hostile: 16 named hostile shapes x 6 contextual formats built as structures, encoded, re-read (the shape must survive the round trip) and applied; the structure itself is applied as well; hostile-bytes: 7 hostile GSUB shapes written byte by byte from the specification (no library encoder involved), read and applied; " +
 			"history: one Context reused for 1..30 calls alternating benign and budget-exhausting inputs, each result compared with a fresh Context; layouter: sfnt.Layouter reused over several strings vs a fresh Layouter; " +
 			"evaluations = Apply/Layout calls judged; distinct = distinct (table bytes, sequence) pairs",
 		Assumptions: []string{
@@ -661,6 +661,7 @@ func runC07(c *mon.Ctx) {
 		k.Sample(map[string]any{"calls": calls, "applied": st.applied, "exhausting-inputs-among-first-6": exhausted})
 	})
 
+	c07bytesStratum(c)
 	c07layouter(c)
 
 	for _, name := range c07shapeNames {
